@@ -218,7 +218,7 @@ theorem prefix_verdict_is_cascade (s : DS.DSymData) (f : Facts) (hf : FactsOf s 
     a `Yes` (`simplify` succeeded, canonical key of the cubic tiling) are not modelled. -/
 theorem yes_carries_certificate (s : DS.DSymData) (f : Facts) (hf : FactsOf s f)
     (hs : DS.ValidTables s) (hsz : 1 ≤ s.size)
-    (hG : ∀ oc fg, DS.orientedCover s = .ok oc → FG.fundamentalGroup oc = .ok fg → D3.GroupOK fg)
+    (hF : ∀ oc fg, DS.orientedCover s = .ok oc → FG.fundamentalGroup oc = .ok fg → D3.FuelOK fg)
     (hyes : decideVerdict f = .yes) :
     f.simplifyOk = true ∧ f.keyIsCubic = true ∧
     ∃ inv cov, orbifoldInvariant s = .ok inv ∧ inv ∈ Tables.euclideanInvariants ∧
@@ -236,7 +236,7 @@ theorem yes_carries_certificate (s : DS.DSymData) (f : Facts) (hf : FactsOf s f)
       rw [e1] at h1
       unfold inInvariantTable at h1
       exact List.contains_iff_mem.mp h1
-    have hcert := C15.ptc_certificate s cov hs hsz hG ho
+    have hcert := C15.ptc_certificate s cov hs hsz hF ho
     rcases Tab.token_ok inv hmem with hw | hstray
     · exact ⟨h3, h4, inv, cov, hinv, hmem, hw, Tab.token_reachable inv hmem, ho, hcert.1, hcert.2⟩
     · -- a stray comment token is never an output of `orbifold_invariant`
